@@ -144,6 +144,7 @@ func (t *fnTrans) instr(in ssa.Instruction) {
 		}
 	case *ssa.Go:
 		t.assumptions["goroutine spawned at "+t.posStr(in.Pos())+" is not followed (its body is verified separately if under contract)"] = true
+		t.spawn(in)
 	case *ssa.Panic:
 		if t.fc == nil || !t.fc.MayPanic {
 			t.oblige("safety", "panic", "explicit panic unreachable", "false", in.Pos())
